@@ -1,4 +1,5 @@
 import SqlgrepModel.Lemmas.ReaderUtf8
+import SqlgrepModel.Lemmas.ReaderExec
 /-
 C12 — every line of every input file reaches the query exactly once, in order.
 
@@ -122,6 +123,78 @@ theorem valid_files_all_presented (files : List (List Nat)) (h : ∀ f ∈ files
     rw [execFiles_eq_feed, feed_record, hall]
     simp
   exact ⟨hok, every_line_once_in_order files hok⟩
+
+/-! ## The executed run (added with C05/C19: link between `Reader.execFiles` and `Exec.runFiles`)
+
+`execFiles` above is generic in the engine; what `runBatch`, `runBatchI` and `Pipeline.runText` execute is `runFiles`
+(Model/Exec.lean) over `FileLine`s, with the real engine, LIMIT and the final loop state. `fileOf mk bytes` is a file's
+`Reader.lines` as `FileLine`s (`Pipeline.fileLines` produces exactly this: `fileLines_eq_fileOf`), `lineStep` the engine
+step of `runFile` (a LIMIT stop or an engine failure leaves the loop, carried as the `engineError` payload) and
+`finish` the state in which each ending leaves the run (`readError` ↦ `error := FailReadFile`, stopped). -/
+
+/-- **the executed double loop is the reader loop of this file**, instantiated with the real engine step -/
+theorem exec_is_reader_loop (O : Oracles) (qy : Query) (idx : JoinIndex) (w : Bool) (mk : List Nat → Line)
+    (files : List (List Nat)) (ls : LoopState) (hst : ls.stop = false) (hrl : reachedLimit qy ls.es = false) :
+    runFiles O qy idx w none (files.map (fileOf mk)) ls = finish (execFiles (lineStep O qy idx w mk) ls files) :=
+  runFiles_eq_execFiles O qy idx w mk files ls hst hrl
+
+/-- … hence a single loop over the lines of all files, in command-line and file order -/
+theorem exec_files_in_order (O : Oracles) (qy : Query) (idx : JoinIndex) (w : Bool) (mk : List Nat → Line)
+    (files : List (List Nat)) (ls : LoopState) (hst : ls.stop = false) (hrl : reachedLimit qy ls.es = false) :
+    runFiles O qy idx w none (files.map (fileOf mk)) ls =
+      finish (feed (lineStep O qy idx w mk) ls (files.flatMap lines)) := by
+  rw [runFiles_eq_execFiles O qy idx w mk files ls hst hrl, execFiles_eq_feed]
+
+/-- **multi-file = concatenation for the executed run** (`runBatchI` = `FileExecutor::execute`, any statement, join,
+LIMIT): over files of which all but the last are newline-terminated the run is the run over their concatenation —
+same records, same line count, same outcome -/
+theorem exec_multi_file_eq_concat (O : Oracles) (qy : Query) (joined : Option (List FileLine)) (mk : List Nat → Line)
+    (files : List (List Nat)) (last : List Nat) (h : ∀ f ∈ files, NlTerminated f) :
+    (runBatchI O qy joined ((files ++ [last]).map (fileOf mk)) none none).1 =
+      (runBatchI O qy joined [fileOf mk (files ++ [last]).flatten] none none).1 := by
+  obtain ⟨o, ho⟩ := runBatchI_plain O qy joined
+  rw [ho, ho]
+  apply runWithIndex_congr_files
+  intro idx w
+  by_cases hrl : reachedLimit qy ({} : LoopState).es = true
+  · -- LIMIT 0: nothing is read on either side
+    cases hfs : (files ++ [last]).map (fileOf mk) with
+    | nil => simp at hfs
+    | cons a as => simp [runFiles, hrl]
+  · have hrl' : reachedLimit qy ({} : LoopState).es = false := by simpa using hrl
+    have h1 := runFiles_eq_execFiles O qy idx w mk (files ++ [last]) {} rfl hrl'
+    have h2 := runFiles_eq_execFiles O qy idx w mk [(files ++ [last]).flatten] {} rfl hrl'
+    simp only [List.map_cons, List.map_nil] at h2
+    rw [h1, h2, multi_file_eq_concat _ _ files last h]
+
+/-- **no silent drop in the executed run**: a run that went through all files without stopping (no failure, no
+LIMIT reached) has been given every line of every file, none of them unreadable -/
+theorem exec_no_silent_drop (O : Oracles) (qy : Query) (idx : JoinIndex) (w : Bool) (mk : List Nat → Line)
+    (files : List (List Nat)) (ls : LoopState) (hst : ls.stop = false) (hrl : reachedLimit qy ls.es = false)
+    (hend : (runFiles O qy idx w none (files.map (fileOf mk)) ls).stop = false) :
+    .error () ∉ files.flatMap lines ∧ files.flatMap lines = (okPrefix (files.flatMap lines)).map .ok := by
+  rw [runFiles_eq_execFiles O qy idx w mk files ls hst hrl] at hend
+  have hok := finish_stop_false (fun e he => execFiles_lineStep_engineError O qy idx w mk files ls e he) hend
+  have hall := no_silent_drop_any_engine _ ls files hok
+  refine ⟨?_, hall⟩
+  intro hmem
+  have := (allOk_false_iff _).2 hmem
+  rw [(allOk_iff _).2 hall] at this
+  cases this
+
+/-- **an unreadable line is reported at the point where it stands**: when the reader loop ends in a read error, the
+executed run ends with `FailReadFile`, stopped, in the state reached over the lines before it -/
+theorem exec_read_error_reported (O : Oracles) (qy : Query) (idx : JoinIndex) (w : Bool) (mk : List Nat → Line)
+    (files : List (List Nat)) (ls : LoopState) (hst : ls.stop = false) (hrl : reachedLimit qy ls.es = false)
+    (s : LoopState) (h : execFiles (lineStep O qy idx w mk) ls files = (s, .readError)) :
+    runFiles O qy idx w none (files.map (fileOf mk)) ls =
+      { s with out := { s.out with error := some .failReadFile }, stop := true } := by
+  rw [runFiles_eq_execFiles O qy idx w mk files ls hst hrl, h]
+  rfl
+
+-- hypotheses of the `exec_*` theorems on the initial loop state of a `SELECT * … LIMIT 3`
+example : ({} : LoopState).stop = false ∧
+    reachedLimit ⟨.select ⟨[], true, none, some 3, false⟩, ⟨"t", ["k"]⟩, none⟩ ({} : LoopState).es = false := by decide
 
 /-! Non-vacuity and concrete behaviour (97 = 'a', 98 = 'b', 99 = 'c', 10 = LF, 13 = CR, 255 = invalid byte). -/
 
